@@ -412,7 +412,7 @@ theorem onePlyIfChecked_tie {P : Type} (g : Game P) (p : P) (alpha beta : Score)
     onePlyIfChecked g p alpha beta st =
       if !g.inCheck p then (Score.heuristicScore (g.eval p), { st with nodes := st.nodes + Gen.sargonQuietNodes })
       else
-        let (res, st') := alphaBetaSearch g fullExploration .static p Gen.sargonCheckDepth alpha beta st
+        let (res, st') := alphaBetaSearch g (constEx fullExploration) .static p Gen.sargonCheckDepth alpha beta st
         match res with
         | none => (Score.invalidScore, { st' with nodes := st.nodes })
         | some r => (r.score, { st' with nodes := st.nodes + r.nodes }) := rfl
